@@ -463,3 +463,82 @@ func H_C08_Normalize(n int) {
 	}
 	vrt.Reach("end")
 }
+
+// H_C09_Deco: compound / decorator instances hold configuration only: a second
+// Compute on the same instance (different action words, closings and length)
+// equals a Compute on a fresh instance, and Compute never writes into the instance.
+// kind: 0 And, 1 Or, 2 Majority, 3 Split, 4 Inverse, 5 NoLoss, 6 StopLoss.
+func H_C09_Deco(kind, n1, n2 int) {
+	mk := func(a, b []strategy.Action, p float64) strategy.Strategy {
+		sa, sb := &stubStrategy{name: "a", acts: a}, &stubStrategy{name: "b", acts: b}
+		switch kind {
+		case 0:
+			return strategy.NewAndStrategy("and", sa, sb)
+		case 1:
+			return strategy.NewOrStrategy("or", sa, sb)
+		case 2:
+			return strategy.NewMajorityStrategyWith("maj", []strategy.Strategy{sa, sb})
+		case 3:
+			return strategy.NewSplitStrategy(sa, sb)
+		case 4:
+			return decorator.NewInverseStrategy(sa)
+		case 5:
+			return decorator.NewNoLossStrategy(sa)
+		default:
+			return decorator.NewStopLossStrategy(sa, p)
+		}
+	}
+	p := vrt.Float64("p")
+	vrt.Assume(p >= 0 && p < 1)
+	n := imax(n1, n2)
+	// the stubs replay their word per call: first call uses the first n1 entries of
+	// words 1, the second call the words 2 (the stub's word is swapped in between)
+	a1, b1 := symActions("a1", n), symActions("b1", n)
+	a2, b2 := symActions("a2", n2), symActions("b2", n2)
+	c1, c2 := positive("c1", n1), positive("c2", n2)
+	s := mk(a1, b1, p)
+	vrt.Freeze(s)
+	_ = Collect1(s.Compute(Src(snapshotsOf(c1), 0)))
+	vrt.Unfreeze()
+	// swap the words of the wrapped stubs (harness-side state, not the instance's)
+	swapWords(s, a2, b2)
+	vrt.Freeze(s)
+	second := Collect1(s.Compute(Src(snapshotsOf(c2), 0)))
+	vrt.Unfreeze()
+	fresh := Collect1(mk(a2, b2, p).Compute(Src(snapshotsOf(c2), 0)))
+	vrt.Assert("len", len(second) == len(fresh))
+	for i := range fresh {
+		if i < len(second) {
+			vrt.AssertAt("reuse", i, second[i] == fresh[i])
+		}
+	}
+	vrt.Reach("end")
+}
+
+func swapWords(s strategy.Strategy, a, b []strategy.Action) {
+	set := func(x strategy.Strategy, w []strategy.Action) {
+		if st, ok := x.(*stubStrategy); ok {
+			st.acts = w
+		}
+	}
+	switch t := s.(type) {
+	case *strategy.AndStrategy:
+		set(t.Strategies[0], a)
+		set(t.Strategies[1], b)
+	case *strategy.OrStrategy:
+		set(t.Strategies[0], a)
+		set(t.Strategies[1], b)
+	case *strategy.MajorityStrategy:
+		set(t.Strategies[0], a)
+		set(t.Strategies[1], b)
+	case *strategy.SplitStrategy:
+		set(t.BuyStrategy, a)
+		set(t.SellStrategy, b)
+	case *decorator.InverseStrategy:
+		set(t.InnerStrategy, a)
+	case *decorator.NoLossStrategy:
+		set(t.InnertStrategy, a)
+	case *decorator.StopLossStrategy:
+		set(t.InnertStrategy, a)
+	}
+}
